@@ -22,7 +22,7 @@ from .. import keys as K, seams
 
 ID = "C14"
 LEVEL = "exploration"
-RUNS = {"quick": 6400, "thorough": 200000}
+RUNS = {"quick": 4800, "thorough": 200000}
 BUDGET = {"quick": 70, "thorough": 1500}
 RULE = ("one run = one world: owner with a rotating private key set (1-6 keys, RSA / EC P-256 / P-384 / Ed25519 / X25519 mixed, "
         "explicit and thumbprint kids, occasional kid re-binding), directory with delay / loss / reordering / stale cache faults, "
@@ -86,13 +86,31 @@ class Owner:
             kid = "key-%d" % self.counter
         return RKey(k.kty, k.crv, k.pub, k.priv, None, {"kid": kid}), mode
 
-    def rebuild(self):
+    def rebuild(self, in_place=False):
+        """new KeySet object, or (in_place) the long-lived object's key list is edited: remove / append / replace"""
         from joserfc.jwk import KeySet
-        self.jset = KeySet([K.to_jose_fast(k, True) for k in self.keys])
+        if in_place and self.jset is not None:
+            have = {j.kid: j for j in self.jset.keys}
+            want = [k.kid for k in self.keys]
+            for j in list(self.jset.keys):
+                if j.kid not in want or not _same(j, next(k for k in self.keys if k.kid == j.kid)):
+                    self.jset.keys.remove(j)
+                    have.pop(j.kid, None)
+            for k in self.keys:
+                if k.kid not in have:
+                    self.jset.keys.append(K.to_jose_fast(k, True))
+            # the model lists the keys in the order of the long-lived set
+            self.keys = [next(k for k in self.keys if k.kid == j.kid) for j in self.jset.keys]
+        else:
+            self.jset = KeySet([K.to_jose_fast(k, True) for k in self.keys])
         self.version += 1
 
     def public_doc(self):
         return self.jset.as_dict(private=False)
+
+
+def _same(jkey, rkey) -> bool:
+    return rk.thumbprint(K.from_jose(jkey)) == rk.thumbprint(rkey)
 
 
 class Peer:
@@ -156,7 +174,10 @@ def _world(rng, tier, index, res, tr, ch):
                     if mode == "rebind" and k.kid in owner.retired_kids:
                         res.fired("kid-rebound-to-new-key")
                     break
-        owner.rebuild()
+        in_place = erng.chance(0.5)
+        owner.rebuild(in_place)
+        if in_place:
+            res.fired("rotation-in-place")
         doc = owner.public_doc()
         directory["versions"].append((owner.version, doc))
         published[owner.version] = list(owner.keys)
@@ -341,6 +362,42 @@ def _world(rng, tier, index, res, tr, ch):
             bt = rjwe.build("compact", {"alg": a2, "enc": "A128GCM"}, pt, [rjwe.Rcpt(a2, k2.public())], erng.sub("nokid%d" % sim.events))
             sim.after(erng.pick([0.01, 5, 600]), lambda: deliver_jwe(bt.ser, k2, pt, None, False), "deliver-jwe")
 
+    def foreign_jwks():
+        """a JWKS from another implementation: entries carry no kid; import must keep every key and give each a (thumbprint) kid"""
+        n = erng.randrange(2, 5)
+        ks = []
+        for i in range(n):
+            kty, crv = erng.pick([k for k in KINDS if k in JWS_ALG or k[0] == "RSA"])
+            ks.append(K.make_kind(erng.sub("foreign%d-%d" % (sim.events, i)), kty, crv, None))
+        doc = {"keys": [rk.to_jwk(k.public()) for k in ks]}
+        res.fired("foreign-jwks-without-kid")
+        res.case(index, sim.events, "foreign-jwks")
+        try:
+            imported = KeySet.import_key_set(copy.deepcopy(doc))
+        except Exception as e:
+            viol("import:refused-foreign-set", "import_key_set refused a conformant JWKS without kids: %s: %s" % (type(e).__name__, e), {"doc": doc})
+            return
+        kids = [k.kid for k in imported.keys]
+        if len(imported.keys) != n or any(not x for x in kids) or len(set(kids)) != len({rk.thumbprint(k) for k in ks}):
+            viol("import:keys-lost-or-without-kid", "a JWKS of %d keys without kid imported as %d keys with kids %r" % (n, len(imported.keys), kids),
+                 {"op": "foreign-jwks", "doc": doc})
+            return
+        back = imported.as_dict(private=False)
+        if len(back["keys"]) != n:
+            viol("import-export:keys-differ", "export of the imported foreign set has %d keys, %d given" % (len(back["keys"]), n), {"op": "foreign-jwks", "doc": doc})
+        # a token signed by each key, naming the thumbprint kid, verifies against the imported set
+        for k in ks:
+            if kind_of(k) not in JWS_ALG:
+                continue
+            alg = JWS_ALG[kind_of(k)][0]
+            kid = rk.thumbprint(k)
+            tok = rjws.make_compact(rjws.compact_json({"alg": alg, "kid": kid}), b"foreign", alg, k)
+            try:
+                jws.deserialize_compact(tok, imported, algorithms=ALLJWS)
+            except Exception as e:
+                viol("consume-jws:rejected-resolvable", "token of a key of the imported foreign set (thumbprint kid) rejected: %s: %s" % (type(e).__name__, e),
+                     {"op": "foreign-jwks", "doc": doc})
+
     # ---------------- JWE: peer encrypts to the fetched public set, owner decrypts ----------------
     def mint_jwe(liveness=False):
         peer = erng.pick(peers)
@@ -452,8 +509,10 @@ def _world(rng, tier, index, res, tr, ch):
             sim.at(sim.now + t, rotate, "rotate")
         elif r < 0.40:
             sim.at(sim.now + t, lambda: fetch(erng.pick(peers)), "fetch")
-        elif r < 0.50:
+        elif r < 0.47:
             sim.at(sim.now + t, mint_nokid, "mint-nokid")
+        elif r < 0.52:
+            sim.at(sim.now + t, foreign_jwks, "foreign-jwks")
         elif r < 0.76:
             sim.at(sim.now + t, mint_jws, "mint-jws")
         else:
@@ -526,6 +585,18 @@ def replay(repro: dict):
                     out.append(("consume-jwe:wrong-error-for-unknown-kid", type(exc).__name__))
             elif outcome != "ok":
                 out.append(("consume-jwe:rejected-resolvable", "%s: %s" % (type(exc).__name__, exc)))
+        elif op == "foreign-jwks":
+            doc = repro["doc"]
+            n = len(doc["keys"])
+            try:
+                imported = KeySet.import_key_set(copy.deepcopy(doc))
+                kids = [k.kid for k in imported.keys]
+                if len(imported.keys) != n or any(not x for x in kids) or len(set(kids)) != len({json.dumps(j, sort_keys=True) for j in doc["keys"]}):
+                    out.append(("import:keys-lost-or-without-kid", "%d of %d keys, kids %r" % (len(imported.keys), n, kids)))
+                if len(imported.as_dict(private=False)["keys"]) != n:
+                    out.append(("import-export:keys-differ", "export differs"))
+            except Exception as e:
+                out.append(("import:refused-foreign-set", str(e)))
         elif op in ("mint-jws", "mint-jwe"):
             # producer-side: re-run a small world around the recorded key set is not possible without the PRNG; re-check by construction
             keys = [rk.from_jwk(j, strict=False) for j in repro.get("owner_keys", [])] or \
